@@ -314,6 +314,9 @@ func genUEChoice(t *rapid.T, k int, taken map[uint64]bool) refamf.UEChoice {
 	if rapid.IntRange(0, 35).Draw(t, l+"late_cuc") == 23 {
 		u.CUCDelayMs = rapid.SampledFrom([]int{600, 600, 1100}).Draw(t, l+"cuc_delay_ms")
 	}
+	if rapid.IntRange(0, 4).Draw(t, l+"later_release_amf") == 2 {
+		u.LaterIEs = rapid.IntRange(1, 3).Draw(t, l+"later_ies")
+	}
 	if rapid.IntRange(0, 23).Draw(t, l+"slow_smf") == 13 {
 		u.SetupDelayMs = rapid.SampledFrom([]int{250, 250, 700}).Draw(t, l+"setup_delay_ms")
 	}
@@ -419,6 +422,9 @@ func scenarioClasses(sc refamf.Scenario) []string {
 		}
 		if u.CUCDelayMs > 0 {
 			cl = append(cl, "configuration-update-command-sent-late")
+		}
+		if u.LaterIEs > 0 {
+			cl = append(cl, fmt.Sprintf("amf-adds-%d-later-release-IEs", u.LaterIEs))
 		}
 		if u.SetupDelayMs > 0 {
 			cl = append(cl, "session-setup-request-sent-late(other-UEs-answered-first)")
